@@ -1,5 +1,6 @@
 import ClusterVerif.Lemmas.C11
 import ClusterVerif.Gen.C11Send
+import ClusterVerif.Gen.C11Client
 /-!
 C11 — property theorems.
 
@@ -659,5 +660,99 @@ example : groupAnswer Gen.sendLogic Gen.autoStatus ((Gen.handlerSends.lookup "un
     = some ⟨[404], 1⟩ := by decide
 example : groupAnswer Gen.sendLogic Gen.autoStatus ((Gen.handlerSends.lookup "statusAllHandler").getD []) "Cluster.StatusAllLocal" .ok
     = some ⟨[200], 1⟩ := by decide
+
+/-! ### the bundled client's methods as a regenerated table (round 8c) -/
+
+/-- **build_interpreted.** For every call, what the model's client sends (`build`, over which `client_server_inverse` is
+    proved) is the interpretation of the row that `extract_c11c` regenerated from the method's source: same verb, path
+    pieces, escaping class, query keys, body. -/
+theorem build_interpreted (cfg : CliCfg) (c : Call) : build cfg c = interpTable Gen.clientMethods cfg c := by
+  cases c with
+  | pinPath p o => simp only [build, interpTable, callName]; cases h : clientPath p <;> simp [interpRow, pathSegs, querySegs, rowBody, rowMeta, callPathArg, callOpts, h, Gen.clientMethods, mkReq] <;> rfl
+  | unpinPath p => simp only [build, interpTable, callName]; cases h : clientPath p <;> simp [interpRow, pathSegs, querySegs, rowBody, rowMeta, callPathArg, callOpts, h, Gen.clientMethods, mkReq] <;> rfl
+  | pin s o => simp [build, interpTable, callName, Gen.clientMethods, interpRow, pathSegs, querySegs, rowBody, rowMeta, callSeg, callOpts, mkReq]
+  | _ => rfl
+
+/-- every row addresses (first match over the regenerated route table, verb included) the route named like the method -/
+theorem client_rows_route : Gen.clientMethods.all (rowRoutes Gen.routes) = true := by decide
+
+/-- every key a method writes by name is the key the server reads (`local`, `filter`); whole queries come from
+    `PinOptions.ToQuery` (Pin, PinPath only) or `AddParams.ToQueryString` (the streaming add only) -/
+theorem client_rows_keys : Gen.clientMethods.all rowKeysKnown = true := by decide
+
+/-- no method writes an unescaped string into the path or the query -/
+theorem client_rows_escaped :
+    Gen.clientMethods.all (fun row => !row.path.contains (.arg .rawString) && !row.path.contains .rawPath &&
+      row.query.all (fun q => match q with | .kv _ .rawString => false | _ => true)) = true := by decide
+
+/-- the table is complete in both directions: every non-streaming row is the method of some `Call` constructor, every
+    method that sends nothing itself is known (`Add` goes through `AddMultiFile`), row names are unique -/
+theorem client_rows_complete :
+    (Gen.clientMethods.filter (fun r => !r.stream)).map (·.name) =
+      ["ID", "Peers", "PeerAdd", "PeerRm", "Pin", "Unpin", "PinPath", "UnpinPath", "Allocations", "Allocation", "Status",
+       "StatusAll", "Recover", "RecoverAll", "Alerts", "Version", "GetConnectGraph", "Metrics", "MetricNames", "RepoGC"] ∧
+    (Gen.clientMethods.filter (·.stream)).map (·.name) = ["AddMultiFile"] ∧ Gen.noRequestMethods = ["Add"] := by decide
+
+/-- **client_server_inverse per row.** For every row of the regenerated table, every call of that method with
+    well-formed arguments, every credential situation and cluster answer: the request the ROW yields, sent through the
+    regenerated chain and route table, performs exactly the operation the method names with the arguments given, and the
+    client returns the server's answer. -/
+theorem client_row_inverse (tracing : Bool) (cfg : CliCfg) (row : CRow) (c : Call)
+    (hrow : Gen.clientMethods.find? (fun r => r.name == callName c) = some row) (hwf : callWf c)
+    (h1 : answerHasOrigins c = false) :
+    row.stream = false ∧ build cfg c = interpRow row cfg c ∧
+    cliHolds cfg c (clientCall (Gen.chain tracing) Gen.routes cfg c).1 (clientCall (Gen.chain tracing) Gen.routes cfg c).2 = true := by
+  have hb := build_interpreted cfg c
+  have hs : row.stream = false := by
+    have : ∀ r ∈ Gen.clientMethods, r.name = callName c → r.stream = false := by
+      intro r hr hn
+      have h21 : Gen.clientMethods.all (fun r => !r.stream || r.name == "AddMultiFile") = true := by decide
+      have := List.all_eq_true.mp h21 r hr
+      cases hst : r.stream with
+      | false => rfl
+      | true =>
+        simp [hst] at this
+        rw [this] at hn
+        cases c <;> simp [callName] at hn
+    have hmem := List.mem_of_find?_eq_some hrow
+    have hname := List.find?_some hrow
+    exact this row hmem (by simpa using hname)
+  refine ⟨hs, ?_, client_server_inverse tracing cfg c hwf h1⟩
+  rw [hb, interpTable, hrow]; simp [hs]
+
+/-- the alternative rows a slip would write: `Recover` as `/pins/recover/%s`, `RecoverAll` with the verb GET -/
+def swappedRecover : CRow :=
+  { name := "Recover", verb := "POST", path := [.lit "pins", .lit "recover", .arg .cidStr], query := [.kv "local" .boolT],
+    body := .none, out := true, stream := false, guards := [] }
+def getRecoverAll : CRow :=
+  { name := "RecoverAll", verb := "GET", path := [.lit "pins", .lit "recover"], query := [.kv "local" .boolT],
+    body := .none, out := true, stream := false, guards := [] }
+
+/-- … the first addresses no POST route at all, the second is a Status of the CID "recover": neither is accepted -/
+theorem client_swapped_rows_refuted :
+    rowRoutes Gen.routes swappedRecover = false ∧ rowRoutes Gen.routes getRecoverAll = false := by decide
+
+/-- `handleResponse`'s regenerated switch decides exactly as the model's `clientRet` for every HTTP status (< 600) -/
+theorem client_decode_table (c : Call) (o : Resp) (h : o.status < 600) :
+    decodeRet Gen.decodeLogic c o = clientRet c o := by
+  have hs : Gen.decodeLogic = { silent := [202, 204], errLo := 399, errHi := 600, errDecoded := true, objDecoded := true } := by
+    decide
+  rw [hs]
+  by_cases h2 : o.status = 202
+  · simp [decodeRet, clientRet, h2]
+  · by_cases h4 : o.status = 204
+    · simp [decodeRet, clientRet, h4]
+    · by_cases h5 : 400 ≤ o.status
+      · have h6 : 399 < o.status := by omega
+        simp [decodeRet, clientRet, h2, h4, h5, h6, h]
+      · have h6 : ¬ 399 < o.status := by omega
+        simp [decodeRet, clientRet, h2, h4, h5, h6]
+
+example : interpTable Gen.clientMethods ⟨true, .right, .ok⟩ (.recover ⟨"c3", some 3, none⟩ true) =
+    some (mkReq ⟨true, .right, .ok⟩ "POST" [lit "pins", ⟨"c3", some 3, none⟩, lit "recover"] [("local", boolQ true)] [] .none) := by rfl
+example : (interpTable Gen.clientMethods ⟨false, .none, .ok⟩ (.unpinPath [⟨"c3", some 3, none⟩, lit "a b"])).map (·.segs) =
+    some [lit "pins", lit "ipfs", ⟨"c3", some 3, none⟩, lit "a b"] := by decide
+example : decodeRet Gen.decodeLogic .id { status := 404, body := .docs 1, ops := [] } = .err 404 := by decide
+
 
 end CV.C11
